@@ -53,14 +53,15 @@ def run_impl(exes, cases):
     res = [None] * len(cases)
     hung = abnormal = 0
     for kind, exe in (("bulk", exes["bulk"]), ("mtbb", exes["mtbb"])):
-        idx = [i for i, c in enumerate(cases) if (c.split()[0] == "bulk") == (kind == "bulk")]
+        idx = [i for i, c in enumerate(cases) if (c.split()[0] in ("bulk", "bulkbig")) == (kind == "bulk")]
         for k in range(0, len(idx), 30):
             part = idx[k:k + 30]
             if hung >= 2 or abnormal >= 12:
                 for i in part:
                     res[i] = "skipped"
                 continue
-            lines, rc = run_exe(exe, [cases[i] for i in part], timeout=60 + 25 * 3 + len(part))
+            nbig = sum(1 for i in part if cases[i].split()[0] in ("bulkbig", "pfbig"))
+            lines, rc = run_exe(exe, [cases[i] for i in part], timeout=60 + 25 * 3 + len(part) + 95 * nbig)
             for j, i in enumerate(part):
                 res[i] = lines[j] if j < len(lines) else "outcome=harness-died"
             # every abnormal outcome is slow (unbounded recursion runs until the watchdog or an
@@ -84,6 +85,7 @@ def info(exes):
             k, v = t.split("=")
             d[k] = v
     return {"attr_size": int(d["attr_size"]), "cap": int(d["cap"]), "csz": int(d["csz"]),
+            "default_child_first": int(d["default_child_first"]),
             "sizes": [int(x) for x in d["sizes"].split(",")], "nfun": int(d["nfun"]), "many_fid": int(d["many_fid"])}
 
 
@@ -91,13 +93,14 @@ def info(exes):
 # case generation (everything from ctx.rng)
 # ----------------------------------------------------------------------------------------------
 
+WORKERS = [1, 2, 3, 4, 8]
 N_BOUNDARY = [0, 1, 2, 3, 4, 5, 6, 7, 8, 9, 15, 16, 17, 31, 32, 33, 63, 64, 65, 100, 127, 128, 129, 255, 256, 257, 300]
 
 
 def bulk_case(r, inf, n, kind=None, flags=None, canonical=False, cf=None, sk=None):
     A = inf["attr_size"]
     kind = kind or r.choice(["many", "various"])
-    W = r.rng(1, 4)
+    W = r.choice(WORKERS)
     if canonical:
         fs, as_, rs, is_, ts = 8, 8, 8, 8, A
     else:
@@ -119,8 +122,9 @@ def bulk_case(r, inf, n, kind=None, flags=None, canonical=False, cf=None, sk=Non
         cf = r.choice([0, 0, 1, 2, 3, 4, 4, 5])
     if sk is None:
         sk = r.choice([0, 1, 1, 2, 3, 3])
-    return "bulk %d %s %d %d %d %d %d %d %d %d %d %d %d %d" % (W, kind, n, fs, as_, rs, is_, ts, int(hr), int(hi), int(ht),
-                                                           cf, sk, r.below(1 << 20))
+    # wk = 1: the bodies yield 0-3 times, spin and use their stack (3 of 4 cases)
+    return "bulk %d %s %d %d %d %d %d %d %d %d %d %d %d %d %d" % (W, kind, n, fs, as_, rs, is_, ts, int(hr), int(hi), int(ht),
+                                                              cf, sk, r.below(1 << 20), int(r.below(4) != 0))
 
 
 def gen_bulk(ctx, inf, nrand, nmax):
@@ -153,6 +157,15 @@ def gen_bulk(ctx, inf, nrand, nmax):
     return cases
 
 
+def gen_big(ctx):
+    """n = 50000 items that yield twice on ONE worker: tens of thousands of simultaneously suspended
+    items (the run queue has to slide with more than a third of its slots in use)"""
+    cases = ["bulkbig 1 many 50000 2", "pfbig 1 50000 2"]
+    if ctx.thorough:
+        cases += ["bulkbig 1 various 50000 2", "bulkbig 2 many 60000 1", "pfbig 1 70000 2", "pfbig 3 50000 3"]
+    return cases
+
+
 def tg_case(r, inf, cycles):
     ops = []
     ncls = len(inf["sizes"])
@@ -161,7 +174,7 @@ def tg_case(r, inf, cycles):
         for _ in range(k):
             ops.append("r%d" % (0 if mode == 0 else r.below(ncls) if mode < 3 else r.choice([4, 5, 3])))
         ops.append("w")
-    return "tg %d %d %d %s %s" % (r.rng(1, 4), inf["cap"], inf["csz"], ",".join(map(str, inf["sizes"])), " ".join(ops))
+    return "tg %d %d %d %s %s" % (r.choice(WORKERS), inf["cap"], inf["csz"], ",".join(map(str, inf["sizes"])), " ".join(ops))
 
 
 def gen_tg(ctx, inf, nrand):
@@ -174,7 +187,7 @@ def gen_tg(ctx, inf, nrand):
 
 
 def pf_case(r, form, ty, first, last, step, grain):
-    return "pf %d %s %s %d %d %d %d" % (r.rng(1, 4), form, ty, first, last, step, grain)
+    return "pf %d %s %s %d %d %d %d %d" % (r.choice(WORKERS), form, ty, first, last, step, grain, int(r.below(4) != 0))
 
 
 def gen_pf(ctx, nrand, nmax):
@@ -283,11 +296,58 @@ def lst(s):
     return [x for x in s.split(",") if x != ""]
 
 
-def oracle_bulk(case, out):
+def slot_hash(seed, j):
+    return (seed * 7919 + j * 104729 + ((j * j) % 1009) * 31) % 1000003
+
+
+def attr_slot(cf, sk, seed, j, ts, dflt):
+    """what the harness put into attribute slot j: (tag it will be reported as, child_first)"""
+    zero = sk == 2 or (sk == 3 and slot_hash(seed, j) % 3 == 0)
+    c = {0: 0, 1: 1, 2: j % 2, 3: (j + 1) % 2, 4: slot_hash(seed, j + 7) % 2}.get(cf, dflt)
+    return (-2 if zero else j * ts), c
+
+
+def halving(n):
+    """the documented mechanism, restated: [a,b) with more than one item is split at (a+b)/2, the left
+    half goes to a new thread, the right half stays; returns the forks and the thread owning each item"""
+    forks, owner = [], {}
+    todo = [(0, n, None)] if n > 0 else []
+    while todo:
+        a, b, t = todo.pop()
+        if b - a == 1:
+            owner[a] = t
+        else:
+            c = (a + b) // 2
+            forks.append((a, c))
+            todo.append((a, c, (a, c)))
+            todo.append((c, b, t))
+    return forks, owner
+
+
+def oracle_big(case, out):
+    w = case.split()
+    n = int(w[3] if w[0] == "bulkbig" else w[2])
+    if out.startswith("outcome="):
+        return "the call over %d yielding items did not return normally: %s" % (n, out)
+    if out == "skipped":
+        return None
+    d = fields(out)
+    if int(d["once"]) != n or int(d["other"]) != 0:
+        return "%d of %d items were not applied exactly once" % (n - int(d["once"]), n)
+    if w[0] == "bulkbig":
+        if d["ret"] != "0" or int(d["resok"]) != n:
+            return "%d of %d result slots are wrong" % (n - int(d["resok"]), n)
+        if d["created"] != d["reaped"]:
+            return "returned with %s thread(s) created but %s joined" % (d["created"], d["reaped"])
+    return None
+
+
+def oracle_bulk(case, out, inf=None):
     w = case.split()
     kind, n = w[2], int(w[3])
     fs, as_, rs, is_, ts = map(int, w[4:9])
     hr, hi, ht = (x == "1" for x in w[9:12])
+    cfp, skp, aseed = (int(w[12]), int(w[13]), int(w[14])) if len(w) >= 15 else (5, 0, 0)
     if out.startswith("outcome=") or out in ("skipped",):
         return None if out == "skipped" else "the call did not return normally: " + out
     d = fields(out)
@@ -295,7 +355,8 @@ def oracle_bulk(case, out):
         return "return value %s" % d.get("ret")
     fid = lambda i: MANY_FID if kind == "many" else (i % NFUN if fs else 0)
     exp = sorted((fid(i), i * as_) for i in range(n))
-    got = sorted((int(a), int(b)) for a, b, _ in (x.split(":") for x in lst(d["inv"])))
+    inv4 = [tuple(map(int, x.split(":"))) for x in lst(d["inv"])]
+    got = sorted((a, b) for a, b, _, _ in inv4)
     if got != exp:
         ce, cg = collections.Counter(exp), collections.Counter(got)
         miss = sorted((ce - cg).elements())[:5]
@@ -333,6 +394,25 @@ def oracle_bulk(case, out):
         return "returned with %s thread(s) created but %s joined" % (d["created"], d["reaped"])
     if n == 0 and d["created"] != "0":
         return "n = 0 created threads"
+    if int(d.get("stkbad", "0")) != 0:
+        return "%s application(s) did not run on the stack their thread was promised, or had their stack overwritten" % d["stkbad"]
+    # per-item attributes: the thread created for the left half [a,c) gets attrs[a] (stack size seen
+    # through the creation record and from inside the item, child-first or parent-first start)
+    dflt = inf["default_child_first"] if inf else 1
+    slot = lambda a: attr_slot(cfp, skp, aseed, a if ts else 0, ts, dflt) if ht else (-1, 1)
+    forks, owner = halving(n)
+    expcre = sorted(slot(a) for a, c in forks)
+    gotcre = sorted(tuple(map(int, x.split(":"))) for x in lst(d["cre"]))
+    if gotcre != expcre:
+        ce, cg = collections.Counter(expcre), collections.Counter(gotcre)
+        return ("creations (attribute slot offset, child_first) differ from 'the thread for [a,c) is created with attrs + a*stride': "
+                "missing %s, unexpected %s" % (sorted((ce - cg).elements())[:4], sorted((cg - ce).elements())[:4]))
+    expat = sorted((fid(i), i * as_, (slot(owner[i][0])[0] if owner[i] else -1)) for i in range(n))
+    gotat = sorted((a, b, t) for a, b, _, t in inv4)
+    if gotat != expat:
+        ce, cg = collections.Counter(expat), collections.Counter(gotat)
+        return ("items did not run in a thread created with the expected attribute (function, argument offset, attribute slot): "
+                "missing %s, unexpected %s" % (sorted((ce - cg).elements())[:4], sorted((cg - ce).elements())[:4]))
     return None
 
 
@@ -379,6 +459,10 @@ def oracle_pf(case, out):
         return "parallel_for did not return normally: " + out
     if out == "skipped":
         return None
+    if " | " in out:
+        out, stats = out.split(" | ", 1)
+        if fields(stats).get("stkbad", "0") != "0":
+            return "the stack pattern of %s body call(s) was overwritten" % fields(stats)["stkbad"]
     if form in ("fl", "rng"):
         step = 1
     exp = list(range(first, last, step))
@@ -410,8 +494,10 @@ def oracle_pf(case, out):
 def oracle(case, out, inf):
     try:
         k = case.split()[0]
+        if k in ("bulkbig", "pfbig"):
+            return oracle_big(case, out)
         if k == "bulk":
-            return oracle_bulk(case, out)
+            return oracle_bulk(case, out, inf)
         if k == "tg":
             return oracle_tg(case, out, inf)
         return oracle_pf(case, out)
@@ -463,7 +549,7 @@ def evaluate(exes, cases, inf):
         msg = oracle(c, impl[i], inf)
         if msg:
             fails.append((c, impl[i], msg))
-        if impl[i] != model[i]:
+        if impl[i].split(" | ")[0] != model[i]:      # after " | ": schedule-dependent counters
             diffs.append((i, c, impl[i], model[i]))
     return impl, model, diffs, fails, guard_bad
 
@@ -497,7 +583,7 @@ def run(ctx):
     inf = info(exes)
     nb, nt, npf, nmax = (300, 60, 300, 300) if not ctx.thorough else (4000, 600, 4000, 1500)
     corpus = corpus_cases(inf)
-    cases = corpus + gen_bulk(ctx, inf, nb, 300 if not ctx.thorough else 1000) + gen_tg(ctx, inf, nt) + gen_pf(ctx, npf, nmax)
+    cases = corpus + gen_big(ctx) + gen_bulk(ctx, inf, nb, 300 if not ctx.thorough else 1000) + gen_tg(ctx, inf, nt) + gen_pf(ctx, npf, nmax)
     impl, model, diffs, fails, guard_bad = evaluate(exes, cases, inf)
 
     searched = 0
@@ -515,9 +601,11 @@ def run(ctx):
     kinds, wdist, ndist, outd = collections.Counter(), collections.Counter(), collections.Counter(), collections.Counter()
     for c, o in zip(cases, impl):
         w = c.split()
-        kinds[w[0] + ("/" + w[2] if w[0] != "tg" else "")] += 1
+        kinds[w[0] + ("/" + w[2] if w[0] in ("bulk", "bulkbig", "pf") else "")] += 1
         wdist["workers=" + w[1]] += 1
-        if w[0] == "bulk":
+        if w[0] in ("bulkbig", "pfbig"):
+            ndist["big: 50000+ yielding items"] += 1
+        elif w[0] == "bulk":
             n = int(w[3])
             ndist["bulk n=0" if n == 0 else "bulk n=1" if n == 1 else "bulk n=2..8" if n <= 8 else "bulk n=9..64" if n <= 64 else "bulk n>64"] += 1
             ndist["bulk results=%s ids=%s attrs=%s" % (w[9], w[10], w[11])] += 1
@@ -531,6 +619,38 @@ def run(ctx):
             first, last = int(w[4]), int(w[5])
             ndist["pf empty" if first == last else "pf reversed" if first > last else "pf single" if last - first <= int(w[6]) else "pf several"] += 1
         outd[o.split("=")[0] if o.startswith("outcome") or o.startswith("not-run") else "completed"] += 1
+    # schedule coverage: did the items really interleave and migrate?  (counters after " | ")
+    sched = {"bulk_cases_with_working_bodies_multi_worker": 0, "items_started_on_a_worker_other_than_the_creators": 0,
+             "max_items_started_but_not_finished": 0, "max_items_started_but_not_finished_one_worker": 0,
+             "yields_by_item_bodies": 0, "parallel_for_max_bodies_in_flight": 0, "parallel_for_yields": 0,
+             "items_run_under_their_own_attribute_slot": 0, "items_run_under_an_earlier_items_attribute_slot": 0,
+             "items_run_in_the_calling_thread": 0}
+    for c, o in zip(cases, impl):
+        w = c.split()
+        if " | " not in o:
+            continue
+        st = fields(o.split(" | ", 1)[1])
+        if w[0] == "bulk":
+            multi = int(w[1]) >= 2 and len(w) >= 16 and w[15] == "1"
+            if multi:
+                sched["bulk_cases_with_working_bodies_multi_worker"] += 1
+                sched["items_started_on_a_worker_other_than_the_creators"] += int(st["xw"])
+                sched["max_items_started_but_not_finished"] = max(sched["max_items_started_but_not_finished"], int(st["maxact"]))
+            elif int(w[1]) == 1:
+                sched["max_items_started_but_not_finished_one_worker"] = max(sched["max_items_started_but_not_finished_one_worker"], int(st["maxact"]))
+            sched["yields_by_item_bodies"] += int(st["yields"])
+            if w[11] == "1" and int(w[8]) > 0:
+                ts, as_ = int(w[8]), int(w[5])
+                for x in lst(fields(o.split(" | ")[0]).get("inv", "")):
+                    f, off, inl, tag = map(int, x.split(":"))
+                    if inl:
+                        sched["items_run_in_the_calling_thread"] += 1
+                    elif as_ > 0 and tag >= 0:
+                        sched["items_run_under_their_own_attribute_slot" if tag // ts == off // as_ else "items_run_under_an_earlier_items_attribute_slot"] += 1
+        elif w[0] == "pf":
+            sched["parallel_for_max_bodies_in_flight"] = max(sched["parallel_for_max_bodies_in_flight"], int(st["maxact"]))
+            sched["parallel_for_yields"] += int(st["yields"])
+    ctx.cov["schedule_coverage"] = sched
     ctx.cov["correspondence"] = {
         "cases": len(cases), "corpus_cases": len(corpus), "disagreements": len(diffs),
         "oracle_failures": len(fails), "model_guard_mismatches": len(guard_bad),
@@ -543,7 +663,8 @@ def run(ctx):
     ctx.cov["distinct_nontrivial"] = len(set(c.split(None, 2)[2] for c in cases))
     ctx.cov["trusted_base"] += [
         "extraction: ExtrOcamlBasic only; ocaml/driver_C17.ml (mirrors the input layout of the C harness: function slot j holds function j mod 16, attribute slot j asks for stack size base+j), ocaml/zio.ml",
-        "harness/c17_bulk.c (0xA5-filled buffers with 64 guard bytes around every array; result values with all bytes in 0x40..0x7f; create.init / join.reap / alloc.stack hook events counted during the call; one forked child per case)",
+        "harness/c17_bulk.c (0xA5-filled buffers with 64 guard bytes around every array; result values with all bytes in 0x40..0x7f; create.init / create.start / join.reap / alloc.stack hook events recorded during the call; item bodies yield, spin and fill part of their stack; one forked child per case)",
+        "oracle rule for per-item attributes: the thread for the left half [a,c) of a split is created with attrs + a*stride (the code's documented mechanism, restated in Python independently of the Coq model); NOT 'item i runs under attrs[i]', which the library does not implement (see schedule_coverage.items_run_under_*)",
         "harness/c17_mtbb.cc (reads the public members of task_group to locate task objects; Rng<T> stands in for tbb::blocked_range; g++ default -std; one forked child per case with alarm and creation-count watchdog)",
         "modelled, not verified: myth_create_ex / myth_join themselves (C01); addresses as unbounded integers (no 64-bit wrap); signed overflow in parallel_for is excluded by the stated guards, not modelled"]
 
@@ -561,6 +682,12 @@ def run(ctx):
         c, m = guard_bad[0]
         ctx.violation("correspondence", "the model's overflow guard and the check's guard disagree on: %s (model: %s)" % (c, m[:100]),
                       {"theorem_or_correspondence": "pf3_guard / pf2_guard / pg_guard / pr_guard", "case": c, "expected": m[:300]}, found=False)
+    if not fails and not diffs and sched["bulk_cases_with_working_bodies_multi_worker"] >= 50 and (
+            sched["items_started_on_a_worker_other_than_the_creators"] == 0 or sched["max_items_started_but_not_finished"] < 2):
+        ctx.violation("coverage", "schedule coverage gate: in %d multi-worker bulk cases %d items ran on another worker than their creator's and at most %d items were in flight at once" % (
+            sched["bulk_cases_with_working_bodies_multi_worker"], sched["items_started_on_a_worker_other_than_the_creators"],
+            sched["max_items_started_but_not_finished"]),
+            {"theorem_or_correspondence": "schedule coverage of the correspondence run (C17_various_any_schedule)", "counters": sched}, found=False)
     if broken:
         ctx.violation("proof", "theorem(s) no longer check: " + ", ".join(broken),
                       {"theorem_or_correspondence": ", ".join(broken), "log": getattr(ctx, "proof_log", log[-3000:])}, found=False)
